@@ -84,6 +84,17 @@ impl Model {
         for (m, s) in w.members.iter().zip(&w.starts) {
             blocks.push(Blk { off: m.offset, size: m.size, len: m.data.len(), start: *s });
         }
+        // members are contiguous and cover the file (the walker guarantees it; cheap re-check)
+        let mut at = 0u64;
+        for b in &blocks {
+            if b.off != at {
+                return Err(format!("harness: member at {} does not start where the previous one ended ({at})", b.off));
+            }
+            at += b.size;
+        }
+        if at != file.len() as u64 {
+            return Err(format!("harness: members cover {at} of {} bytes", file.len()));
+        }
         let mut trail = blocks.len();
         while trail > 0 && blocks[trail - 1].len == 0 {
             trail -= 1;
